@@ -322,3 +322,247 @@ Proof.
         by (rewrite Z.eqb_refl; destruct (Z.ltb_spec 1 w); [reflexivity|lia]).
       rewrite Hm. split; reflexivity.
 Qed.
+
+(* ======================================================================== *)
+(* E. the compressed walk against the uncompressed walk of subset i           *)
+(* ======================================================================== *)
+Section Subset.
+Variables (vals : list (list value)) (i : nat) (pre post : list (list value)).
+
+(* same input, same position in it; the uncompressed ghost of subset i is the
+   i-th row of the compressed ghost; the other rows (pre, post) do not move *)
+Definition Rt (gc : gcstate) (gu : gstate) : Prop :=
+  e_vals (gce gc) = vals /\ e_vals (ge gu) = vals /\ e_idx (ge gu) = e_idx (gce gc) /\
+  e_cur (ge gu) = i /\ length pre = i /\ gh gu = pre ++ nth i (gch gc) [] :: post /\
+  length (gch gc) = length vals /\ (i < length vals)%nat.
+
+Lemma Rt_cur gc gu : Rt gc gu -> gh_cur gu = nth i (gch gc) [].
+Proof.
+  intros (_ & _ & _ & Hc & Hp & Hg & _). unfold gh_cur. rewrite Hc, Hg, <- Hp. apply nth_mid.
+Qed.
+
+Lemma next_both gc gu col ae e1 v e1u :
+  Rt gc gu -> next_column (gce gc) = Ok (col, ae, e1) -> next_value (ge gu) = Ok (v, e1u) ->
+  nth_error col i = Some v /\ e_vals e1 = vals /\ e_vals e1u = vals /\ e_idx e1u = e_idx e1 /\
+  e_cur e1u = i /\ length col = length vals.
+Proof.
+  intros (Hvc & Hvu & Hi & Hc & Hp & Hg & Hl & Hlt) En Ev.
+  destruct (next_column_inv _ _ _ _ En) as (Ecol & -> & _).
+  pose proof (column_at_length _ _ _ Ecol) as Hlen.
+  unfold next_value, e_cur_vals in Ev. rewrite Hc, Hvu, Hi in Ev.
+  rewrite Hvc in Ecol. rewrite <- (column_at_nth _ _ _ i Ecol Hlt) in Ev.
+  destruct (nth_error col i) as [v'|]; [|discriminate]. injection Ev as <- <-.
+  cbn. repeat split; congruence.
+Qed.
+
+Lemma Rt_push gc gu colv x e1c e1u :
+  Rt gc gu -> nth_error colv i = Some x -> length colv = length vals ->
+  e_vals e1c = vals -> e_vals e1u = vals -> e_idx e1u = e_idx e1c -> e_cur e1u = i ->
+  Rt (gc_push colv gc e1c) (gh_push x gu e1u).
+Proof.
+  intros (Hvc & Hvu & Hi & Hc & Hp & Hg & Hl & Hlt) Hx Hlc H1 H2 H3 H4.
+  unfold Rt, gc_push, gh_push. cbn [gce gch ge gh].
+  repeat split; try assumption.
+  - rewrite Hc, Hg, <- Hp, upd_nth_mid. rewrite Hp.
+    rewrite (nth_append_col _ _ _ _ Hx) by lia. reflexivity.
+  - rewrite append_col_length; lia.
+Qed.
+
+Notation relt := (relp Rt).
+
+Lemma rel_numeric a b c : relt (gcs_numeric a b c) (g_numeric a b c).
+Proof.
+  intros gc gu gc' gu' HR E1 E2. unfold gcs_numeric in E1.
+  destruct (next_column (gce gc)) as [[[col ae] e1]|] eqn:En; cbn [bind] in E1; [|discriminate].
+  destruct (numeric_raws b c col ae) as [raws|] eqn:Er; cbn [bind] in E1; [|discriminate].
+  destruct (all_same ae col) eqn:Hsame; cbn [andb negb] in E1; [|discriminate].
+  destruct (onebit_ok a raws) eqn:Hob; cbn [negb] in E1; [|discriminate].
+  destruct (gc_numeric_inv _ _ _ _ _ E1) as (col' & ae' & e1' & raws' & w & En' & Er' & Hdom & ->).
+  rewrite En in En'. injection En' as <- <- <-. rewrite Er in Er'. injection Er' as <-.
+  unfold g_numeric in E2.
+  destruct (64 <? a)%Z; [discriminate|].
+  destruct (next_value (ge gu)) as [[v e1u]|] eqn:Ev; cbn [bind] in E2; [|discriminate].
+  match type of E2 with bind ?r _ = _ => destruct r as [raw|] eqn:Eraw end; cbn [bind] in E2; [|discriminate].
+  destruct (write_uint raw a (e_w e1u)) as [w'|]; cbn [bind] in E2; [|discriminate].
+  injection E2 as <-.
+  destruct (next_both _ _ _ _ _ _ _ HR En Ev) as (Hk & Hv1 & Hv2 & Hidx & Hcur & Hlen).
+  destruct (numeric_raws_nth _ _ _ _ _ _ _ Er Hsame Hk) as (r & Hr & Hrv).
+  destruct (col_dom_any_cases _ _ _ Hdom) as (Hw & _).
+  assert (Hraw : match r with None => raw = (2 ^ a - 1)%Z | Some x => raw = x end).
+  { destruct v; try (destruct Hrv as (x & Ex & ->); rewrite Ex in Eraw; injection Eraw as <-; reflexivity).
+    subst r. exact (missing_for_ok _ _ Hw Eraw). }
+  destruct (num_entry_agree _ _ _ _ _ raw b c Hdom Hob Hr Hraw) as (o & Ho & Hnv & _).
+  apply Rt_push; try assumption.
+  - rewrite <- Hnv. apply map_nth_error. exact Ho.
+  - rewrite map_length, num_view_length, (numeric_raws_length _ _ _ _ _ Er). exact Hlen.
+Qed.
+
+Lemma rel_codeflag a b : relt (gcs_codeflag a b) (g_codeflag a b).
+Proof.
+  intros gc gu gc' gu' HR E1 E2. unfold gcs_codeflag in E1.
+  destruct (next_column (gce gc)) as [[[col ae] e1]|] eqn:En; cbn [bind] in E1; [|discriminate].
+  destruct (codeflag_raws col) as [raws|] eqn:Er; cbn [bind] in E1; [|discriminate].
+  destruct (onebit_ok a raws) eqn:Hob; cbn [negb] in E1; [|discriminate].
+  destruct (gc_codeflag_inv _ _ _ _ E1) as (col' & ae' & e1' & raws' & w & En' & Er' & Hdom & ->).
+  rewrite En in En'. injection En' as <- <- <-. rewrite Er in Er'. injection Er' as <-.
+  unfold g_codeflag in E2.
+  destruct (64 <? a)%Z; [discriminate|].
+  destruct (next_value (ge gu)) as [[v e1u]|] eqn:Ev; cbn [bind] in E2; [|discriminate].
+  match type of E2 with bind ?r _ = _ => destruct r as [raw|] eqn:Eraw end; cbn [bind] in E2; [|discriminate].
+  destruct (write_uint raw a (e_w e1u)) as [w'|]; cbn [bind] in E2; [|discriminate].
+  injection E2 as <-.
+  destruct (next_both _ _ _ _ _ _ _ HR En Ev) as (Hk & Hv1 & Hv2 & Hidx & Hcur & Hlen).
+  destruct (map_res_nth _ _ _ _ _ Er Hk) as (r & Hrv & Hr).
+  destruct (col_dom_any_cases _ _ _ Hdom) as (Hw & _).
+  assert (Hraw : match r with None => raw = (2 ^ a - 1)%Z | Some x => raw = x end).
+  { destruct v; try discriminate; injection Hrv as <-; try (injection Eraw as <-; reflexivity).
+    exact (missing_for_ok _ _ Hw Eraw). }
+  destruct (num_entry_agree _ _ _ _ _ raw 0 0 Hdom Hob Hr Hraw) as (o & Ho & _ & Hcv).
+  apply Rt_push; try assumption.
+  - rewrite <- Hcv. apply map_nth_error. exact Ho.
+  - rewrite map_length, num_view_length, (map_res_length _ _ _ Er). exact Hlen.
+Qed.
+
+Lemma rel_string a : relt (gc_string a) (g_string a).
+Proof.
+  intros gc gu gc' gu' HR E1 E2.
+  destruct (gc_string_inv _ _ _ E1) as (col & ae & e1 & vs & w & En & Er & ->).
+  unfold g_string in E2.
+  destruct (next_value (ge gu)) as [[v e1u]|] eqn:Ev; cbn [bind] in E2; [|discriminate].
+  match type of E2 with bind ?r _ = _ => destruct r as [bs|] eqn:Eb end; cbn [bind] in E2; [|discriminate].
+  destruct (negb (forallb is_byte bs)); [discriminate|].
+  destruct (write_bytes bs a (e_w e1u)) as [w'|]; cbn [bind] in E2; [|discriminate].
+  injection E2 as <-.
+  destruct (next_both _ _ _ _ _ _ _ HR En Ev) as (Hk & Hv1 & Hv2 & Hidx & Hcur & Hlen).
+  destruct (map_res_nth _ _ _ _ _ Er Hk) as (y & Hy & Hyk).
+  apply Rt_push; try assumption.
+  - assert (Hb : pad_bytes bs (Z.to_nat a) = pad_bytes (str_or_missing a y) (Z.to_nat a)).
+    { destruct v; try discriminate; injection Hy as <-; injection Eb as <-; reflexivity. }
+    rewrite Hb.
+    apply (map_nth_error VBytes). unfold str_view.
+    exact (map_nth_error (fun v => pad_bytes (str_or_missing a v) (Z.to_nat a)) _ _ Hyk).
+  - rewrite map_length, str_view_length, (map_res_length _ _ _ Er). exact Hlen.
+Qed.
+
+Lemma rel_constant a : relt (gc_constant a) (g_constant a).
+Proof.
+  intros gc gu gc' gu' HR E1 E2.
+  destruct (gc_constant_inv _ _ _ E1) as (col & ae & e1 & En & ->).
+  unfold g_constant in E2.
+  destruct (next_value (ge gu)) as [[v e1u]|] eqn:Ev; cbn [bind] in E2; [|discriminate].
+  destruct (value_eq_int v a); [|discriminate]. injection E2 as <-.
+  destruct (next_both _ _ _ _ _ _ _ HR En Ev) as (Hk & Hv1 & Hv2 & Hidx & Hcur & Hlen).
+  apply Rt_push; try assumption.
+  - apply nth_error_rep. rewrite Hlen. destruct HR as (_ & _ & _ & _ & _ & _ & _ & Hlt). exact Hlt.
+  - rewrite repeat_length. exact Hlen.
+Qed.
+
+Lemma rel_new_refval a gc gu z1 z2 gc' gu' : Rt gc gu ->
+  gc_new_refval a gc = Ok (z1, gc') -> g_new_refval a gu = Ok (z2, gu') -> z1 = z2 /\ Rt gc' gu'.
+Proof.
+  intros HR E1 E2.
+  destruct (gc_new_refval_inv _ _ _ _ E1) as (col & e1 & w & En & Hhd & ->).
+  unfold g_new_refval in E2.
+  destruct (next_value (ge gu)) as [[v e1u]|] eqn:Ev; cbn [bind] in E2; [|discriminate].
+  destruct v as [x| | | |]; try discriminate.
+  destruct (write_int x a (e_w e1u)) as [w'|]; cbn [bind] in E2; [|discriminate].
+  injection E2 as <- <-.
+  destruct (next_both _ _ _ _ _ _ _ HR En Ev) as (Hk & Hv1 & Hv2 & Hidx & Hcur & Hlen).
+  destruct (next_column_inv _ _ _ _ En) as (_ & _ & v0 & c0 & Hcol & Hae).
+  assert (z1 = x).
+  { subst col. cbn in Hhd. injection Hhd as ->. symmetry in Hae. rewrite forallb_forall in Hae.
+    specialize (Hae _ (nth_error_In _ _ Hk)). cbn in Hae. lia. }
+  subst x. split; [reflexivity|].
+  apply Rt_push; try assumption.
+  - apply nth_error_rep. rewrite Hlen. destruct HR as (_ & _ & _ & _ & _ & _ & _ & Hlt). exact Hlt.
+  - rewrite repeat_length. exact Hlen.
+Qed.
+
+(* replication factors: the compressed coder takes the factor of the first
+   subset after checking that all present ones are equal *)
+Lemma factor_int v n : factor_of_value v = Ok n -> exists z, v = VInt z /\ (0 <= z)%Z /\ n = Z.to_N z.
+Proof.
+  destruct v as [z|m s|m e|b|]; cbn; try discriminate;
+    try (destruct (m <? 0)%Z; discriminate).
+  destruct (Z.ltb_spec z 0); [discriminate|]. intros E; injection E as <-. eauto.
+Qed.
+
+Lemma equal_present_nth vs k z0 zk :
+  assert_equal_present vs = Ok tt -> nth_error vs 0 = Some (VInt z0) -> nth_error vs k = Some (VInt zk) ->
+  z0 = zk.
+Proof.
+  unfold assert_equal_present. destruct vs as [|v0 tl]; [discriminate|].
+  cbn [nth_error]. intros Ha E0 Ek. injection E0 as ->. cbn [filter] in Ha.
+  destruct (forallb (value_eqb (VInt z0)) (filter _ tl)) eqn:Hf; [|discriminate].
+  destruct k as [|k]; cbn [nth_error] in Ek; [injection Ek as <-; reflexivity|].
+  rewrite forallb_forall in Hf.
+  assert (Hin : In (VInt zk) (filter (fun v => match v with VNone => false | _ => true end) tl)).
+  { apply filter_In. split; [exact (nth_error_In _ _ Ek)|reflexivity]. }
+  specialize (Hf _ Hin). cbn in Hf. lia.
+Qed.
+
+Lemma factor_cols_nth G k n1 n2 :
+  factor_of_cols G = Ok n1 -> (k < length G)%nat -> last_factor (nth k G []) = Ok n2 -> n1 = n2.
+Proof.
+  unfold factor_of_cols. intros E Hk El.
+  destruct (existsb _ _); [discriminate|].
+  set (vs := map (fun o => match o with Some v => v | None => VNone end) (map last_of G)) in *.
+  destruct (assert_equal_present vs) as [[]|] eqn:Ha; cbn [bind] in E; [|discriminate].
+  destruct vs as [|v0 tl] eqn:Hvs; [discriminate|].
+  destruct (factor_int _ _ E) as (z0 & -> & H0 & ->).
+  unfold last_factor in El.
+  assert (Hnth : nth_error vs k = Some (match last_of (nth k G []) with Some v => v | None => VNone end)).
+  { unfold vs. rewrite map_map.
+    rewrite (map_nth_error (fun x => match last_of x with Some v => v | None => VNone end) k G
+               (d := nth k G [])); [reflexivity|].
+    apply nth_error_nth'. exact Hk. }
+  unfold last_of in Hnth. destruct (rev (nth k G [])) as [|vk rest]; [discriminate|].
+  destruct (factor_int _ _ El) as (zk & -> & Hk0 & ->).
+  rewrite Hvs in Hnth. rewrite (equal_present_nth _ k z0 zk Ha eq_refl Hnth). reflexivity.
+Qed.
+
+Lemma rel_factor gc gu n1 n2 : Rt gc gu -> gc_factor gc = Ok n1 -> g_factor gu = Ok n2 -> n1 = n2.
+Proof.
+  intros HR E1 E2. unfold gc_factor in E1. unfold g_factor in E2.
+  destruct (encc_factor (gce gc)) as [m|]; cbn [bind] in E1; [|discriminate].
+  destruct (factor_of_cols (gch gc)) as [m'|] eqn:Ef; cbn [bind] in E1; [|discriminate].
+  destruct (N.eqb_spec m m'); [|discriminate]. injection E1 as <-. subst m'.
+  destruct (enc_factor (ge gu)) as [k|]; cbn [bind] in E2; [|discriminate].
+  destruct (last_factor (gh_cur gu)) as [k'|] eqn:El; cbn [bind] in E2; [|discriminate].
+  destruct (N.eqb_spec k k'); [|discriminate]. injection E2 as <-. subst k'.
+  rewrite (Rt_cur _ _ HR) in El.
+  destruct HR as (_ & _ & _ & _ & _ & _ & Hl & Hlt).
+  apply (factor_cols_nth _ i _ _ Ef); [lia|exact El].
+Qed.
+
+Lemma rel_bitmap a gc gu b1 b2 : Rt gc gu -> gcs_bitmap a gc = Ok b1 -> g_bitmap a gu = Ok b2 -> b1 = b2.
+Proof.
+  intros HR E1 E2. unfold gcs_bitmap in E1. unfold g_bitmap in E2.
+  destruct (gc_bitmap a gc) as [bm|]; cbn [bind] in E1; [|discriminate].
+  destruct (forallb _ (gch gc)) eqn:Hall; [|discriminate]. injection E1 as <-.
+  destruct (enc_bitmap a (ge gu)) as [m|]; cbn [bind] in E2; [|discriminate].
+  destruct (list_eq_dec _ _ _) as [Heq|]; [|discriminate]. injection E2 as <-.
+  rewrite Heq, (Rt_cur _ _ HR).
+  destruct HR as (_ & _ & _ & _ & _ & _ & Hl & Hlt).
+  rewrite forallb_forall in Hall.
+  assert (Hin : In (nth i (gch gc) []) (gch gc)) by (apply nth_In; lia).
+  specialize (Hall _ Hin). unfold bools_eqb in Hall.
+  destruct (list_eq_dec _ _ _) as [H|]; [symmetry; exact H|discriminate].
+Qed.
+
+Theorem walk_compressed_vs_subset :
+  forall ms, relf (Rio Rt) (walk_list (io_handlers gcs_prims) io_add_link ms)
+                           (walk_list (io_handlers g_prims) io_add_link ms).
+Proof.
+  apply (io_walk_rel gcs_prims g_prims Rt);
+    cbn [gcs_prims g_prims p_numeric p_string p_codeflag p_constant p_new_refval p_factor p_bitmap].
+  - exact rel_numeric.
+  - exact rel_string.
+  - exact rel_codeflag.
+  - exact rel_constant.
+  - exact rel_new_refval.
+  - exact rel_factor.
+  - exact rel_bitmap.
+Qed.
+
+End Subset.
